@@ -304,18 +304,17 @@ Proof.
   assert (Hx : length (S.words block) = 16%nat) by (apply words_length; exact Hlen).
   rewrite (rounds_resolved (S.words block) (range 80) (map spec_params (seq 0 80))).
   2:{ rewrite rounds_are_standard, map_map. reflexivity. }
-  destruct (rounds_p_congr (S.words block) (map spec_params (seq 0 80))
-              (h0, h1, h2, h3, h4, h0, h1, h2, h3, h4) ((s0, s1, s2, s3, s4), (s0, s1, s2, s3, s4))
-              rounds_wf Hx) as (s' & Es & Rs).
-  { split; exact HR. }
-  rewrite Es. cbn [bind].
   unfold S.compress. rewrite spec_rounds_fold.
+  match goal with |- context [fold_left (step_p ?X) ?l ?i] =>
+    destruct (rounds_p_congr X l (h0, h1, h2, h3, h4, h0, h1, h2, h3, h4) i rounds_wf Hx) as (s' & Es & Rs);
+      [split; exact HR|];
+    destruct (fold_left (step_p X) l i) as [[[[[A B] C] D] E] [[[[A' B'] C'] D'] E']]
+  end.
+  rewrite Es. cbn [bind].
   destruct s' as [[[[[[[[[al bl] cl] dl] el] ar] br] cr] dr] er].
-  destruct (fold_left (step_p (S.words block)) (map spec_params (seq 0 80)) (s0, s1, s2, s3, s4, (s0, s1, s2, s3, s4)))
-    as [[[[[A B] C] D] E] [[[[A' B'] C'] D'] E']].
   destruct Rs as [(Ra & Rb & Rc & Rd & Re) (Ra' & Rb' & Rc' & Rd' & Re')].
   eexists; split; [reflexivity|].
-  unfold R5. split; [|split; [|split; [|split]]]; apply final_add; assumption.
+  unfold R5. cbv beta iota zeta. split; [|split; [|split; [|split]]]; apply final_add; assumption.
 Qed.
 
 (* ---- 4. block loops, padding, the whole function ------------------------------------------------------ *)
@@ -341,8 +340,8 @@ Lemma blocks_of_prefix : forall m (a b : bytes), length a = (64 * m)%nat ->
 Proof.
   induction m as [|m IH]; intros a b H; [reflexivity|].
   cbn [S.blocks_of]. rewrite firstn_app, skipn_app.
-  replace (64 - length a)%nat with 0%nat by lia. cbn [firstn skipn]. rewrite app_nil_r.
-  f_equal. apply IH. rewrite skipn_length. lia.
+  replace (64 - length a)%nat with 0%nat by lia. rewrite firstn_O, skipn_O, app_nil_r.
+  rewrite IH; [reflexivity|]. rewrite skipn_length. lia.
 Qed.
 
 Lemma blocks_of_app : forall m n (a b : bytes), length a = (64 * m)%nat ->
@@ -351,8 +350,8 @@ Proof.
   induction m as [|m IH]; intros n a b H.
   - destruct a; [reflexivity|discriminate].
   - cbn [S.blocks_of Nat.add app]. rewrite firstn_app, skipn_app.
-    replace (64 - length a)%nat with 0%nat by lia. cbn [firstn skipn]. rewrite app_nil_r.
-    f_equal. apply IH. rewrite skipn_length. lia.
+    replace (64 - length a)%nat with 0%nat by lia. rewrite firstn_O, skipn_O, app_nil_r.
+    rewrite IH; [reflexivity|]. rewrite skipn_length. lia.
 Qed.
 
 (* the arithmetic of the padding idioms *)
@@ -398,7 +397,7 @@ Qed.
 Lemma pack_word h s : h mod W = s -> pack_L (Z.land h 0xFFFFFFFF) = Ret (S.word_bytes s).
 Proof.
   intros <-. rewrite land_M32. unfold pack_L, S.word_bytes.
-  pose proof (mod_W_range h) as R. rewrite W_pow in R.
+  assert (R : 0 <= h mod W < 2 ^ 32) by apply mod_W_range.
   destruct ((0 <=? h mod W) && (h mod W <? 2 ^ 32)) eqn:E; [reflexivity|lia].
 Qed.
 
@@ -415,7 +414,10 @@ Proof.
   destruct (blocks_loop_congr data q 0 gen_init S.IV) as (st1 & E1 & R1).
   { fold len. lia. }
   { rewrite (ts_IV tables_standard). cbn. repeat split; reflexivity. }
-  rewrite E1. cbn [bind]. cbn [Nat.mul skipn] in R1.
+  rewrite E1. cbn [bind]. change (skipn (64 * 0) data) with data in R1.
+  assert (Hfirst : length (firstn (64 * q) data) = (64 * q)%nat).
+  { apply firstn_length_le. fold len. lia. }
+  rewrite <- (firstn_skipn (64 * q) data) in R1 at 1. rewrite blocks_of_prefix in R1 by exact Hfirst.
   (* final blocks *)
   set (fin := skipn (64 * q) data ++
               (x80 :: repeat x00 (S.zero_pad len)) ++ le_encode 8 ((8 * N.of_nat len) mod 2 ^ 64)%N).
@@ -433,21 +435,17 @@ Proof.
   destruct Hfin64 as (n2 & Hn2).
   rewrite shiftr6. rewrite Hn2. replace (64 * n2 / 64)%nat with n2 by (rewrite Nat.mul_comm, Nat.div_mul; lia).
   destruct (blocks_loop_congr fin n2 0 st1 _ ltac:(lia) R1) as (st2 & E2 & R2).
-  rewrite E2. cbn [bind]. cbn [Nat.mul skipn] in R2.
+  rewrite E2. cbn [bind]. change (skipn (64 * 0) fin) with fin in R2.
   (* the spec's view: pad data = first 64q bytes ++ fin *)
   assert (Hpad : S.pad data = firstn (64 * q) data ++ fin).
-  { unfold S.pad, fin. fold len. rewrite app_assoc. rewrite firstn_skipn. reflexivity. }
-  assert (Hfirst : length (firstn (64 * q) data) = (64 * q)%nat).
-  { apply firstn_length_le. fold len. lia. }
+  { unfold S.pad, fin. fold len. rewrite <- (firstn_skipn (64 * q) data) at 1. rewrite <- app_assoc. reflexivity. }
   rewrite Hpad. rewrite app_length, Hfirst, Hn2.
   replace ((64 * q + 64 * n2) / 64)%nat with (q + n2)%nat
     by (rewrite <- Nat.mul_add_distr_l, Nat.mul_comm, Nat.div_mul; lia).
   rewrite blocks_of_app by exact Hfirst. rewrite fold_left_app.
-  rewrite <- (firstn_skipn (64 * q) data) in R1 at 1. rewrite blocks_of_prefix in R1 by exact Hfirst.
   fold spec_absorb.
   destruct st2 as [[[[m0 m1] m2] m3] m4].
-  destruct (fold_left spec_absorb (S.blocks_of n2 fin)
-              (fold_left spec_absorb (S.blocks_of q (firstn (64 * q) data)) S.IV)) as [[[[s0 s1] s2] s3] s4].
+  match type of R2 with R5 _ ?t => destruct t as [[[[s0 s1] s2] s3] s4] end.
   destruct R2 as (C0 & C1 & C2 & C3 & C4).
   cbn [mapM]. rewrite (pack_word _ _ C0), (pack_word _ _ C1), (pack_word _ _ C2), (pack_word _ _ C3), (pack_word _ _ C4).
   cbn [bind concat]. rewrite app_nil_r. reflexivity.
@@ -462,4 +460,84 @@ Proof.
   - left. unfold pack_Q. destruct ((0 <=? 8 * Z.of_nat (length data)) && (8 * Z.of_nat (length data) <? 2 ^ 64)) eqn:E; [lia|reflexivity].
   - right. eexists. left. reflexivity.
   - right. exists E_OTHER. right. reflexivity.
+Qed.
+
+(* ---- 5. pycoin/encoding/hash.py: selection and the compound hashes -------------------------------------- *)
+Section Selection.
+  Variables sha256 native pycrypto : bytes -> bytes.
+
+  (* whichever implementation get_best_ripemd160 picks, ripemd160(data).digest() is the standard digest —
+     provided the external library that was picked (OpenSSL via hashlib, or PyCrypto) is itself standard *)
+  Lemma hash_ripemd160_standard in_avail env_truthy native_works has_pycrypto data :
+    let c := get_best_ripemd160 in_avail env_truthy native_works has_pycrypto in
+    (c = Native -> forall m, native m = S.ripemd160 m) ->
+    (c = PyCrypto -> forall m, pycrypto m = S.ripemd160 m) ->
+    Z.of_nat (length data) < 2 ^ 61 ->
+    hash_ripemd160 native pycrypto c data = Ret (S.ripemd160 data).
+  Proof.
+    cbv zeta. intros Hn Hp Hlen.
+    destruct (get_best_ripemd160 in_avail env_truthy native_works has_pycrypto); cbn [hash_ripemd160].
+    - now rewrite Hn.
+    - now rewrite Hp.
+    - now apply ripemd160_is_standard.
+  Qed.
+
+  Lemma hash160_standard in_avail env_truthy native_works has_pycrypto data :
+    let c := get_best_ripemd160 in_avail env_truthy native_works has_pycrypto in
+    (c = Native -> forall m, native m = S.ripemd160 m) ->
+    (c = PyCrypto -> forall m, pycrypto m = S.ripemd160 m) ->
+    Z.of_nat (length (sha256 data)) < 2 ^ 61 ->
+    hash160 sha256 native pycrypto c data = Ret (S.ripemd160 (sha256 data)).
+  Proof. cbv zeta. intros. unfold hash160. now apply hash_ripemd160_standard. Qed.
+
+  (* the bundled implementation is what runs when PYCOIN_USE_PYTHON_RIPEMD160 is set (to any non-empty string),
+     or when hashlib lacks/refuses ripemd160 — and PyCrypto is not installed *)
+  Lemma selection_cases in_avail env_truthy native_works :
+    get_best_ripemd160 in_avail true native_works false = PurePython /\
+    get_best_ripemd160 false env_truthy native_works false = PurePython /\
+    get_best_ripemd160 in_avail env_truthy false false = PurePython /\
+    get_best_ripemd160 true false true false = Native.
+  Proof. destruct in_avail, env_truthy, native_works; repeat split; reflexivity. Qed.
+End Selection.
+
+(* ---- statements in the explicit form used by Props/C19.v ------------------------------------------------ *)
+Lemma tables_standard_conj :
+  gen_ML = map Z.of_nat S.r /\ gen_MR = map Z.of_nat S.r' /\ gen_RL = S.s /\ gen_RR = S.s' /\
+  gen_KL = map S.K [0; 16; 32; 48; 64]%nat /\ gen_KR = map S.K' [0; 16; 32; 48; 64]%nat /\
+  gen_init = S.IV /\ gen_pad_a = 119 /\ gen_pad_mask = 63 /\ gen_tail_mask = 63 /\ gen_c19_shape_ok = true.
+Proof.
+  split; [|split; [|split; [|split; [|split; [|split; [|split; [|split; [|split; [|split]]]]]]]]]; reflexivity.
+Qed.
+
+Lemma compress_eq h0 h1 h2 h3 h4 block : length block = 64%nat ->
+  exists h0' h1' h2' h3' h4',
+    M.compress (h0, h1, h2, h3, h4) block = Ret (h0', h1', h2', h3', h4') /\
+    (h0' mod W, h1' mod W, h2' mod W, h3' mod W, h4' mod W)
+    = S.compress (h0 mod W, h1 mod W, h2 mod W, h3 mod W, h4 mod W) (S.words block).
+Proof.
+  intros Hlen.
+  destruct (compress_congr (h0, h1, h2, h3, h4) (h0 mod W, h1 mod W, h2 mod W, h3 mod W, h4 mod W) block Hlen)
+    as ([[[[g0 g1] g2] g3] g4] & E & R).
+  { cbv [R5]. repeat split. }
+  exists g0, g1, g2, g3, g4. split; [exact E|].
+  destruct (S.compress _ _) as [[[[s0 s1] s2] s3] s4]. destruct R as (-> & -> & -> & -> & ->). reflexivity.
+Qed.
+
+Lemma pad_wellformed (msg : bytes) :
+  (length (S.pad msg) mod 64 = 0)%nat /\ (S.zero_pad (length msg) < 64)%nat /\
+  S.pad msg = msg ++ [x80] ++ repeat x00 (S.zero_pad (length msg))
+                  ++ le_encode 8 ((8 * N.of_nat (length msg)) mod 2 ^ 64)%N.
+Proof.
+  split; [|split; [|reflexivity]].
+  - unfold S.pad. rewrite !app_length, repeat_length, le_encode_length. cbn [length]. unfold S.zero_pad.
+    set (len := length msg).
+    pose proof (Nat.div_mod (len + 9) 64 ltac:(lia)) as H1.
+    pose proof (Nat.mod_upper_bound (len + 9) 64 ltac:(lia)) as H2.
+    set (q9 := ((len + 9) / 64)%nat) in *. set (t9 := ((len + 9) mod 64)%nat) in *.
+    destruct (Nat.eq_dec t9 0) as [T0|T0].
+    + rewrite T0. change ((64 - 0) mod 64)%nat with 0%nat.
+      replace (len + (1 + (0 + 8)))%nat with (q9 * 64)%nat by lia. apply Nat.mod_mul. lia.
+    + rewrite (Nat.mod_small (64 - t9)) by lia.
+      replace (len + (1 + (64 - t9 + 8)))%nat with ((q9 + 1) * 64)%nat by lia. apply Nat.mod_mul. lia.
+  - unfold S.zero_pad. apply Nat.mod_upper_bound. lia.
 Qed.
